@@ -33,6 +33,7 @@ func (pass *RenameObject) Process(schemas []*ast.Schema) ([]*ast.Schema, error) 
 
 	visitor := &Visitor{
 		OnObject:      pass.processObject,
+		OnStruct:      pass.processStruct,
 		OnRef:         pass.processRef,
 		OnConstantRef: pass.processConstantRef,
 		OnDisjunction: pass.processDisjunction,
@@ -74,6 +75,36 @@ func (pass *RenameObject) processObject(visitor *Visitor, schema *ast.Schema, ob
 	}
 
 	return object, nil
+}
+
+func (pass *RenameObject) processStruct(visitor *Visitor, schema *ast.Schema, def ast.Type) (ast.Type, error) {
+	var err error
+
+	for i, field := range def.Struct.Fields {
+		def.Struct.Fields[i], err = visitor.VisitStructField(schema, field)
+		if err != nil {
+			return ast.Type{}, err
+		}
+	}
+
+	// structs generated from a disjunction keep it as a hint: its mapping and
+	// its branches refer to objects too.
+	for _, hint := range []string{ast.HintDisjunctionOfScalars, ast.HintDiscriminatedDisjunctionOfRefs} {
+		disjunction, ok := def.Hints[hint].(ast.DisjunctionType)
+		if !ok {
+			continue
+		}
+
+		disjunction = disjunction.DeepCopy()
+		processed, err := pass.processDisjunction(visitor, schema, ast.Type{Kind: ast.KindDisjunction, Disjunction: &disjunction})
+		if err != nil {
+			return ast.Type{}, err
+		}
+
+		def.Hints[hint] = processed.AsDisjunction()
+	}
+
+	return def, nil
 }
 
 func (pass *RenameObject) processRef(_ *Visitor, _ *ast.Schema, def ast.Type) (ast.Type, error) {
